@@ -476,6 +476,59 @@ def extract_fragment(repo, d):
                  0, body.count("\n"))
         return body, [f]
 
+    if "fields" in d:
+        # //@extract file=.. struct=<Name> fields=a,b : the named field declarations of the real struct, verbatim
+        # (`name: Type,`, visibility dropped), to be spliced into a shim receiver so that the field's TYPE follows
+        # the real code
+        p_kw, p_open, p_close, _ = src.resolve("struct:" + d["struct"])
+        if p_open is None:
+            raise LostAnchor("%s: struct %s has no body" % (rel, d["struct"]))
+        decls = {}
+        start = p_open + 1
+        depth = 0
+        p = p_open + 1
+        angle = 0
+        while p <= p_close:
+            t = src.t(p)
+            if t.kind == PUNCT and t.text in "([{":
+                p = src.match[p] + 1
+                continue
+            if t.kind == PUNCT and t.text == "<":
+                angle += 1
+            elif t.kind == PUNCT and t.text == ">" and src.t(p - 1).text != "-":
+                angle -= 1
+            if (t.kind == PUNCT and t.text == "," and angle == 0) or p == p_close:
+                ks = list(range(start, p))
+                # strip attributes / visibility
+                i = 0
+                while i < len(ks):
+                    tx = src.t(ks[i]).text
+                    if tx == "#":
+                        i = ks.index(src.match[ks[i + 1]]) + 1
+                        continue
+                    if tx == "pub":
+                        i += 1
+                        if i < len(ks) and src.t(ks[i]).text == "(":
+                            i = ks.index(src.match[ks[i]]) + 1
+                        continue
+                    break
+                ks = ks[i:]
+                if len(ks) >= 3 and src.t(ks[1]).text == ":":
+                    decls[src.t(ks[0]).text] = (ks[0], ks[-1])
+                start = p + 1
+            p += 1
+        out, frags, line = [], [], 0
+        for name in d["fields"].split(","):
+            if name not in decls:
+                raise LostAnchor("%s: struct %s has no field %s" % (rel, d["struct"], name))
+            a = src.toks[src.sig[decls[name][0]]].start
+            b = src.toks[src.sig[decls[name][1]]].end
+            txt = "    " + src.text[a:b] + ","
+            frags.append(frag(a, b, "field", "%s.%s" % (d["struct"], name), line, line))
+            out.append(txt)
+            line += 1
+        return "\n".join(out), frags
+
     if "methods" in d:
         impl_t = d["impl"]
         trait = d.get("trait")
